@@ -114,4 +114,18 @@ PROPS = {
                                  "value:str_overlong": 0.3, "history:edit_then_roundtrip": 0.3}},
         assumptions=["the documented key rules are those in write_key's error texts and header comments"],
     ),
+    "C07": dict(
+        level="exploration",
+        level_text="Structure-aware fuzzing of the reader: valid spline files (generated or shipped) are damaged by header-card edits (ORDERn, NAXISn, BITPIX, EXTNAME, PERIODn), dropped/duplicated/reordered/resized extensions, non-finite or unsorted knot data, foreign HDUs, raw byte flips and truncation; garbage and non-spline FITS files are included. The oracle is inside the case: a failed read must leave the object empty, reusable (a good buffer is read into the same object and must equal the reference) and destructible; a successful read must satisfy the well-formedness predicate and survive a battery of lookup, evaluation, comparison, re-serialisation and permutation under ASan/UBSan/LSan. Run as a fork-isolated rapidcheck property (shrinkable, seed-pinned) and as a coverage-guided libFuzzer target over the same decoder.",
+        level_note="cfitsio is uninstrumented: a wild write inside it is visible only if it crashes. Evaluation of loaded tables is skipped above 24 dimensions (the derivative bitmask is an int). Sampling, not absence.",
+        technique="structure-aware fuzzing (rapidcheck fork-isolated twin + libFuzzer) with an in-target semantic oracle",
+        engine="rapidcheck+libFuzzer",
+        units=[U("c07_reader", "c07_reader.cpp", quick=6000, thorough=800000, names=["reader"]),
+               U("c07_reader_fuzz", "c07_reader.cpp", variant="fuzz", kind="fuzz", flags=["-DVF_FUZZ"], quick=160000, thorough=40000000, names=["reader_fuzz"], max_len=24000)],
+        rule="a case = base file (generated 1..4-d spec, shipped file, garbage, non-spline FITS) + 0..3 structured mutations + 0..4 byte-level mutations, read through memory "
+             "(7/8), disk (1/16) or the C interface (1/16). Non-trivial: at least one mutation and the input got past cfitsio's open into the spline parsing (recognised by "
+             "the exception text or success); distinct = hash of the mutation list.",
+        essential={"reader": {"read:success": 0.1, "read:failure": 0.2, "reached_spline_parsing": 0.3, "battery:evaluated": 0.2, "via:disk": 0.02, "via:C": 0.02}},
+        assumptions=["exception texts of the reader are used only to classify cases as trivial/non-trivial, never for the verdict"],
+    ),
 }
